@@ -700,6 +700,12 @@ impl Model {
                     se.ambiguous = Some("ADMIN with target".into())
                 }
             }
+            "VERSION" | "TIME" | "INFO" | "HELP" | "LINKS" | "CONNECT" | "REHASH" | "RESTART" => {
+                // opaque verbs: any reply to the sender, no state change, nothing to anybody else
+                se.cur = 0;
+                self.push_e(se, Exp::OptionalPrefix { c, prefix: String::new() });
+                se.labels.push(format!("{}/opaque", verb));
+            }
             other => {
                 se.ambiguous = Some(format!("verb {} is not modelled", other));
             }
